@@ -94,3 +94,42 @@ def run_stats(ctx, cfg):
         # the model's interpretation of ln/exp/pow is arbitrary: this input does not separate the formulas with the real functions
         ctx.solver.add(z3.Or(Xv != xv, nv != nn) if which == "rate" else Xv != xv)
     ctx.unknown.append(("check", label + ": 8 models of the uninterpreted functions did not replay with the real math functions"))
+
+
+def uf_check(ctx, cond, label, variables, is_bad, reinstall, tries=8):
+    """Decide `cond` where ln/exp/log2 are uninterpreted.  unsat = holds for EVERY interpretation (in particular the real
+    functions).  A model only shows that SOME interpretation separates the two sides, so it is replayed with the real math
+    functions (`is_bad(values)` runs the real code unshimmed); a model that does not replay is blocked and the search goes on,
+    at most `tries` times, after which the obligation is inconclusive - never a VIOLATION on the strength of an uninterpreted value."""
+    import struct
+    import z3
+    ctx.reach(label)
+    for _ in range(tries):
+        r = ctx._check(z3.Not(cond))
+        if r == "unsat":
+            ctx.proved[label] = ctx.proved.get(label, 0) + 1
+            return True
+        if r == "unknown":
+            ctx.unknown.append(("check", label))
+            return False
+        mdl = ctx.solver.model()
+        vals = {}
+        for name, v in variables.items():
+            if z3.is_fp(v):
+                bits = mdl.eval(z3.fpToIEEEBV(v), model_completion=True).as_long()
+                vals[name] = struct.unpack("<d", struct.pack("<Q", bits))[0]
+            else:
+                vals[name] = mdl.eval(v, model_completion=True).as_long()
+        ctx.unpatch_all()
+        try:
+            bad = is_bad(vals)
+        except Exception:  # noqa: BLE001  (a crash of the real code at an accepted input counts)
+            bad = True
+        reinstall()
+        if bad:
+            ctx._violation(label, mdl)
+            return False
+        ctx.solver.add(z3.Or(*[(z3.Not(z3.fpEQ(v, mdl.eval(v, model_completion=True))) if z3.is_fp(v) else v != mdl.eval(v, model_completion=True))
+                               for v in variables.values()]))
+    ctx.unknown.append(("check", label + f": {tries} models of the uninterpreted functions did not replay with the real math functions"))
+    return False
